@@ -1,5 +1,10 @@
 import BigtreeModel.Proto
-/-! Driver handler for property C02: one case (token list) in, one canonical line out. -/
+import BigtreeModel.Drv.C01
+/-! Driver handler for property C02: dispatches on `cls=`.  `base|node` histories are the C01
+histories (outcome and whole store after every call). -/
 namespace Drv.C02
-def handle (_toks : List String) : String := "unimplemented"
+def handle (toks : List String) : String :=
+  match Proto.kv toks "cls" with
+  | some "base" | some "node" => Drv.C01.handle toks
+  | _ => "bad-op"
 end Drv.C02
